@@ -230,6 +230,30 @@ fn judge_level_ladder(m: Method, n: usize, k: usize, kind: Kind, l: &mut Local) 
         prev = Some((level, o));
     }
     l.nontrivial(mix(&[m as u64, n as u64, k as u64, kind as u64, 0x1add]));
+    // the levels everybody uses, against levels a hair below and above them (a critical value that is
+    // special-cased, tabulated or rounded at a customary level breaks the order with its neighbours)
+    for lv in [0.5, 0.75, 0.8, 0.9, 0.95, 0.975, 0.99, 0.995, 0.999] {
+        let triple = [lv - 2e-6, lv, lv + 2e-6];
+        let obs: Vec<Option<Obs>> = triple.iter().map(|x| if let Out::Ok(o) = m.call(kind, *x, n, k) { Some(o) } else { None }).collect();
+        for w in 0..2 {
+            l.eval();
+            l.count("customary level vs neighbour judged");
+            if let (Some(p), Some(o)) = (obs[w], obs[w + 1]) {
+                let ok = match kind {
+                    Kind::Two => (o.hi - o.lo) > (p.hi - p.lo),
+                    Kind::Upper => o.lo < p.lo && o.hi == p.hi,
+                    Kind::Lower => o.hi > p.hi && o.lo == p.lo,
+                };
+                if !ok {
+                    l.violation(format!("{}|customary-level-not-ordered-with-neighbour|{}", m.name(), kind.name()), "a level a hair above another does not give a wider interval (at a customary level)".to_string(), json!({"method": m.name(), "n": n, "k": k, "kind": kind, "level": triple[w + 1], "ladder": true}), json!({"level": triple[w + 1], "observed": o.json(), "lower_level": triple[w], "observed_at_lower_level": p.json()}));
+                    return;
+                }
+            } else {
+                l.violation(format!("{}|admissible-count-rejected|customary-level", m.name()), format!("{} rejects an admissible count", m.name()), json!({"method": m.name(), "n": n, "k": k, "kind": kind, "level": lv, "ladder": true}), json!({}));
+                return;
+            }
+        }
+    }
 }
 
 /// success counts judged for a population too large to enumerate: runs of consecutive counts at both
@@ -323,6 +347,6 @@ pub fn run(run: &Arc<Run>) {
         let ks: Vec<usize> = (0..=n).collect();
         judge(m, n, &ks, KINDS[j % 3], &levels, l);
     });
-    run.require(&["monotone-in-k judged", "mirror judged", "midpoint judged", "level-monotone judged", "shrink judged", "large population judged", "population beyond 2^32 judged", "level ladder step judged", "ratio front-end mirror judged"]);
+    run.require(&["monotone-in-k judged", "mirror judged", "midpoint judged", "level-monotone judged", "shrink judged", "large population judged", "population beyond 2^32 judged", "level ladder step judged", "customary level vs neighbour judged", "ratio front-end mirror judged"]);
     let _: Option<Value> = None;
 }
